@@ -57,5 +57,22 @@ theorem facts :
 theorem no_handler_around_objfun {f : String} (h : Reach Gen.callEdges roots f) : f ∉ Gen.objfunCallers ∧ f ≠ "objfun" :=
   facts.2.2.1 f (reach_in_closed Gen.callEdges roots reachSet facts.1 facts.2.1 h)
 
+/-! ### nothing is evaluated before the input checks have passed -/
+
+/-- everything reachable from the calls `solve` makes up to its input-error return -/
+def preludeReach : List String := iter Gen.callEdges 10 Gen.solvePreludeCalls
+
+theorem prelude_facts :
+    (∀ f ∈ Gen.solvePreludeCalls, f ∈ preludeReach) ∧ closed Gen.callEdges preludeReach = true ∧
+    (∀ f ∈ preludeReach, f ∉ Gen.objfunCallers ∧ f ∉ ["objfun", "h", "prox_uh", "nsamples", "solve_main", "dykstra"]) := by
+  decide +kernel
+
+/-- **zero evaluations on an input error, at the source**: no package function reachable from a call that `solve` makes before
+    (or in) its input-error return calls the residual function, and none of those calls is the residual function, the regulariser,
+    its prox, the `nsamples` callback, `solve_main` or `dykstra` (which would call the user's projections) -/
+theorem no_evaluation_before_validation {f : String} (h : Reach Gen.callEdges Gen.solvePreludeCalls f) :
+    f ∉ Gen.objfunCallers ∧ f ∉ ["objfun", "h", "prox_uh", "nsamples", "solve_main", "dykstra"] :=
+  prelude_facts.2.2 f (reach_in_closed Gen.callEdges Gen.solvePreludeCalls preludeReach prelude_facts.1 prelude_facts.2.1 h)
+
 end TrySites
 end Dfols
